@@ -2,7 +2,7 @@
 """Regenerates /verif/MANIFEST.json from the table below (run from /verif)."""
 import json, subprocess
 
-HOOK_COMMITS = ["3f52741", "cca9102", "65e3456", "1493529"]  # in /repo: I/O tap + index probe; worker barrier/liveness probe
+HOOK_COMMITS = ["3f52741", "cca9102", "65e3456", "1493529", "140e2ca"]  # in /repo: I/O tap + index probe; worker barrier/liveness probe; CRLF restore; add-only tidy; rotation debounce setter
 
 CHECKS = {
  "C01": dict(cat="exploration", tech="runtime monitoring: model-differential oracle (sequential reference model) over generated + enumerated histories",
